@@ -24,6 +24,11 @@ type Script struct {
 	Listen string       `json:"listen,omitempty"` // "" none | unix | tcp
 	Steps  []ScriptStep `json:"steps"`
 	End    string       `json:"end,omitempty"` // stay (default) | exit:<code> | closeout | closeerr | closeboth
+	// HolderNS > 0: before anything else the plugin starts a child process of
+	// its own that inherits its stdout and stderr, does nothing and lives this
+	// long (a shell wrapper's background job, a daemonising helper): the pipes
+	// stay open after the plugin itself is gone.
+	HolderNS int64 `json:"holder,omitempty"`
 }
 
 type ScriptStep struct {
@@ -74,6 +79,17 @@ func (r *Run) InstallScript(path string, sc *Script) *ScriptState {
 	st := &ScriptState{}
 	r.W.RegisterProgram(path, []byte("#!script "+path), func() {
 		st.Launches++
+		if sc.HolderNS > 0 {
+			hold := time.Duration(sc.HolderNS)
+			r.W.RegisterProgram("/bin/holder", []byte("#!holder"), func() {
+				time.Sleep(hold)
+				simos.Exit(0)
+			})
+			cur := k.Cur()
+			if _, err := r.W.Spawn("holder", "/bin/holder", []string{"/bin/holder"}, nil, nil, cur.Stdout, cur.Stderr, nil); err != nil {
+				r.W.Note("script", "holder-spawn-failed", err.Error())
+			}
+		}
 		if sc.Listen != "" {
 			var ln simnet.Listener
 			var err error
